@@ -386,7 +386,16 @@ func c14GenFresh(r *rng, n int, w *bufio.Writer) {
 		cmd := exec.CommandContext(ctx, self, "c14freshtrial", strconv.FormatUint(sub, 10), strconv.Itoa(i))
 		var so, se bytes.Buffer
 		cmd.Stdout, cmd.Stderr = &so, &se
-		runErr := cmd.Run()
+		runErr := cmd.Start()
+		if runErr != nil {
+			// no child processes in this environment: run the trial here (names stay new because of the trial counter)
+			cancel()
+			fmt.Fprintln(os.Stderr, "c14fresh: cannot start a child process, running the trial in-process:", runErr)
+			fFreshLine(w, sub, i, fFreshTrial(newRng(sub), fFreshToken(sub), i))
+
+			continue
+		}
+		runErr = cmd.Wait()
 		cancel()
 		desc, line := "", ""
 		for _, l := range strings.Split(so.String(), "\n") {
